@@ -78,11 +78,16 @@ def wup(synset1: Synset, synset2: Synset, simulate_root=False) -> float:
     """
     _check_if_pos_compatible(synset1.pos, synset2.pos)
     lcs_list = _least_common_subsumers(synset1, synset2, simulate_root)
-    lcs = lcs_list[0]
-    i = len(synset1.shortest_path(lcs, simulate_root=simulate_root))
-    j = len(synset2.shortest_path(lcs, simulate_root=simulate_root))
-    k = lcs.max_depth() + 1
-    return (2*k) / (i + j + 2*k)
+
+    def _wup(lcs: Synset) -> float:
+        i = len(synset1.shortest_path(lcs, simulate_root=simulate_root))
+        j = len(synset2.shortest_path(lcs, simulate_root=simulate_root))
+        k = lcs.max_depth() + 1
+        return (2*k) / (i + j + 2*k)
+
+    # with several lowest common hypernyms use the closest one, so the
+    # value does not depend on the order of the two synsets
+    return max(_wup(lcs) for lcs in lcs_list)
 
 
 def lch(
